@@ -9,6 +9,9 @@ of the specification — under `noShadowingAuto` (KF-C19-a).  The unrestricted s
 import Flatland.C19
 import Flatland.Spec.C19
 import Proofs.Lemmas.C19Stack
+import Proofs.Lemmas.C19Discipline
+import Proofs.Lemmas.C19Transforms
+import Proofs.Lemmas.C19Tabindex
 namespace Flatland.C19.Proofs
 open Flatland.Markup Flatland.C19 Flatland.C19.Spec
 
@@ -175,5 +178,126 @@ theorem toggle_resolution (T : Tables) (R : RenderCfg) (markup : Str) (settings 
     rw [popToggle_eq T key attrs G.ctx b v t hd1 hget ht]
     simp only [resolve, ← hrule, hcr, readTrool, ht]
     cases T.parseTrool ((Dict.get? attrs key).getD .maybe) <;> cases t <;> rfl
+
+end Flatland.C19.Proofs
+
+namespace Flatland.C19.Proofs
+open Flatland.Markup Flatland.C19 Flatland.C19.Spec
+
+deriving instance DecidableEq for Except
+
+/-! ### the unrestricted statement is false of the code as it is (KF-C19-a) -/
+
+/-- the property as stated: the four-level rule, with `auto` ALWAYS deferring to the next level -/
+def C19_Full : Prop :=
+  ∀ (markup : Str) (settings : List (Str × CVal)) (g0 : Gen),
+    Gen.init Tables.current markup settings = .ok g0 →
+    ∀ (ops : List Op) (key : Str) (b : Bool), optionDefaultOK Tables.current key b = true →
+    ∀ (attrs : Attrs),
+    troolValued Tables.current (runS Tables.current RenderCfg.current g0 (initHist settings) ops).2 key = true →
+    popToggle Tables.current key attrs (runGen Tables.current RenderCfg.current g0 ops).ctx =
+      .ok (Dict.erase attrs key,
+           resolve b (Tables.current.parseTrool ((Dict.get? attrs key).getD .maybe))
+             (levelTrools Tables.current (runS Tables.current RenderCfg.current g0 (initHist settings) ops).2 key))
+
+/-- `Generator(auto_name='off')` -/
+def kfSettings : List (Str × CVal) := [("auto_name".toList, .text "off".toList)]
+/-- `begin(auto_name='auto')` -/
+def kfOps : List Op := [.begin [("auto_name".toList, .text "auto".toList)]]
+def kfGen : Gen :=
+  match Gen.init Tables.current "xhtml".toList kfSettings with
+  | .ok g => g
+  | .error _ => ⟨false, ⟨[], []⟩⟩
+
+theorem kfGen_init : Gen.init Tables.current "xhtml".toList kfSettings = .ok kfGen := by decide
+
+/-- what the code does on the witness: the name transform is ON (built-in default) … -/
+theorem kf_code : popToggle Tables.current "auto_name".toList []
+    (runGen Tables.current RenderCfg.current kfGen kfOps).ctx = .ok ([], true, false) := by decide
+
+/-- … while the rule of the statement says OFF (the generator's setting, `auto` deferring to it) -/
+theorem kf_rule : resolve true (Tables.current.parseTrool ((Dict.get? ([] : Attrs) "auto_name".toList).getD .maybe))
+    (levelTrools Tables.current (runS Tables.current RenderCfg.current kfGen (initHist kfSettings) kfOps).2
+      "auto_name".toList) = (false, false) := by decide
+
+theorem C19_full_fails : ¬ C19_Full := by
+  intro hfull
+  have h := hfull "xhtml".toList kfSettings kfGen kfGen_init kfOps "auto_name".toList true (by decide) []
+    (by decide)
+  rw [kf_code, kf_rule] at h
+  simp [Dict.erase] at h
+
+/-- the witness is exactly what `noShadowingAuto` excludes -/
+example : noShadowingAuto (levelTrools Tables.current
+    (runS Tables.current RenderCfg.current kfGen (initHist kfSettings) kfOps).2 "auto_name".toList) = false := by
+  decide
+
+/-! ### non-vacuity of `toggle_resolution`: a three-level history satisfying every hypothesis,
+    on which the rule picks the block's setting over the generator's -/
+
+def nvSettings : List (Str × CVal) := [("auto_domid".toList, .text "on".toList)]
+def nvOps : List Op :=
+  [.begin [("auto_domid".toList, .text "off".toList)], .begin [], .set [("auto_name".toList, .bool false)]]
+def nvGen : Gen :=
+  match Gen.init Tables.current "html".toList nvSettings with
+  | .ok g => g
+  | .error _ => ⟨false, ⟨[], []⟩⟩
+
+example : Gen.init Tables.current "html".toList nvSettings = .ok nvGen := by decide
+example : troolValued Tables.current
+    (runS Tables.current RenderCfg.current nvGen (initHist nvSettings) nvOps).2 "auto_domid".toList = true := by decide
+example : noShadowingAuto (levelTrools Tables.current
+    (runS Tables.current RenderCfg.current nvGen (initHist nvSettings) nvOps).2 "auto_domid".toList) = true := by decide
+example : levelTrools Tables.current
+    (runS Tables.current RenderCfg.current nvGen (initHist nvSettings) nvOps).2 "auto_domid".toList =
+    [none, some .no, some .yes] := by decide
+example : resolve false .maybe [none, some .no, some .yes] = (false, false) := by decide
+example : resolve false .yes [none, some .no, some .yes] = (true, true) := by decide
+
+end Flatland.C19.Proofs
+
+namespace Flatland.C19.Proofs
+open Flatland.Markup Flatland.C19 Flatland.C19.Spec
+
+/-! ### non-vacuity of the stack-discipline, forcing and tabindex theorems
+(the theorems themselves are in `Proofs/Lemmas/C19Discipline|Transforms|Tabindex.lean`) -/
+
+def el : Bind := ⟨"fld".toList, "val".toList, .scalar⟩
+def tagInput (kw : List (Str × Val)) : Op := .tag "input".toList (some el) kw
+
+/-- a body with a nested block, a set(), tag calls and a rejected call, ending at its own depth -/
+def nvBody : List Op :=
+  [tagInput [], .begin [("auto_name".toList, .text "off".toList)], .set [("tabindex".toList, .int 7)],
+   .update [("bogus".toList, .int 1)], tagInput [("auto_tabindex".toList, .bool true)], .end_,
+   .setItem "auto_value".toList (.bool false)]
+
+def nvG1 : Gen := (nvGen.begin [("auto_domid".toList, .bool true)]).gen
+
+example : 2 ≤ nvGen.ctx.depth := by decide
+example : nvGen.begin [("auto_domid".toList, .bool true)] = ⟨nvG1, none⟩ := by decide
+example : staysAbove Tables.current RenderCfg.current nvG1.ctx.depth nvG1 nvBody = true := by decide
+example : (runGen Tables.current RenderCfg.current nvG1 nvBody).ctx.depth = nvG1.ctx.depth := by decide
+/-- … and the body really changed settings before the end() restored them -/
+example : (runGen Tables.current RenderCfg.current nvG1 nvBody).ctx ≠ nvG1.ctx := by decide
+
+example : hasUnknown nvGen [("auto_name".toList, .text "off".toList), ("bogus".toList, .int 1)] :=
+  ⟨("bogus".toList, .int 1), by simp, by decide⟩
+
+example : nvGen.ctx.depth = 2 := by decide
+
+/-- forcing: a `<div>` with an existing name gets the bind's name -/
+example : Tables.current.parseTrool ((Dict.get?
+    ([("name".toList, .text "pre".toList), ("auto_name".toList, .text "on".toList)] : Attrs)
+    "auto_name".toList).getD .maybe) = .yes := by decide
+
+def tabGen : Gen :=
+  match Gen.init Tables.current "xhtml".toList [("auto_tabindex".toList, .bool true), ("tabindex".toList, .int 5)] with
+  | .ok g => g
+  | .error _ => ⟨false, ⟨[], []⟩⟩
+
+example : counter tabGen = some 5 := by decide
+example : handed Tables.current RenderCfg.current tabGen
+    [tagInput [], .tag "div".toList none [], tagInput [("tabindex".toList, .text "9".toList)], tagInput []] = [5, 6] := by
+  decide
 
 end Flatland.C19.Proofs
